@@ -586,6 +586,8 @@ where
         let visited_ptr = self.visited.as_mut_ptr();
 
         for u in self.digraph.out_neighbors(v) {
+            assert!(u < self.visited.len(), "u = {u} isn't in the digraph");
+
             let visited_u = unsafe { visited_ptr.add(u) };
 
             unsafe {
